@@ -674,6 +674,21 @@ class Engine:
         cf = self._closure_fn(f)
         if cf is None:
             if isinstance(f, tuple) and f and f[0] == 'fnitem':
+                gf = self.facts.fns.get(f[1])
+                if gf is not None and gf.kind != 'Closure' and self._inlinable(st, gf, f[1]) and f[1] not in self.opaque and f[1] not in self.readonly \
+                        and gf.arg_count == len(cargs):
+                    # a named function handed to an adapter (`flat_map(expand)`): walked like a closure without environment
+                    nfid = next(self.fid)
+                    fr = {}
+                    st.frames[nfid] = fr
+                    st.visited[nfid] = set()
+                    st.entered[nfid] = set()
+                    for i_, x in enumerate(cargs):
+                        fr[1 + i_] = x
+                    cid = next(self.cont_id)
+                    self.conts[cid] = k
+                    st.stack.append((fn, fid, ('cont', cid), None, gf.name))
+                    return [(st, gf, nfid, 0)]
                 return k(st, apply_fnitem(self, f[1], list(cargs)))
             return k(st, ('apply', f, tuple(cargs)))
         nfid = next(self.fid)
@@ -755,7 +770,8 @@ class Engine:
             if t[0] == 'call':
                 base = t[1].rsplit('::', 1)[-1]
                 if base in self.ADAPTER_LAZY_CLOSURE and len(t[2]) == 2:
-                    if self._closure_fn(t[2][1]) is None:
+                    if self._closure_fn(t[2][1]) is None and not (isinstance(t[2][1], tuple) and t[2][1] and t[2][1][0] == 'fnitem'
+                                                                  and t[2][1][1] in self.facts.fns):
                         return None
                     stages.append((base, t[2][1]))
                     t = t[2][0]
